@@ -30,6 +30,20 @@ package workqueue
 //@   ensures   unlocked: !held(r.mu)
 //@ end
 
+// the grant is only moved by When: forgetting an item keeps the instant of the
+// last scheduled run
+//@ func (*reloadHAProxy).Forget
+//@   props C13
+//@   modifies nothing
+//@   ensures  memory: r.last == old(r.last) && r.interval == old(r.interval)
+//@ end
+
+//@ func (*ingressReconciler).Forget
+//@   props C13
+//@   modifies nothing
+//@   ensures  memory: r.last == old(r.last) && r.delta == old(r.delta) && r.wait == old(r.wait)
+//@ end
+
 // C13 — every item added to a work queue goes through its rate limiter
 //@ count QAddRL = (workqueue.TypedRateLimitingInterface).AddRateLimited
 //@ count QAddNow = (workqueue.TypedRateLimitingInterface).Add
